@@ -643,6 +643,11 @@ class Scn:
                     ins = _inserted_lines(c, u["basis_text"])
                     if any(_is_subsequence(ins, t.splitlines(True)) for t in cands):
                         where = "plan-merge-lines-kept"
+                    else:
+                        # the statement speaks of "the clean three-way merge": what a weave / lca plan merge makes of the
+                        # local and incoming changes is not defined by it; recorded, not judged (thorough seed 3 case 2667)
+                        where = "plan-merge-result-not-judged"
+                        ctx.hist("plan-merge-result-not-judged")
             if where is None and asked is not None and asked(u):
                 where = "destroyed-on-request"
             if where is None:
@@ -1343,7 +1348,8 @@ def _store_and_back(s, tp, argv, cwd, home_branch_path, optclass):
         return True
 
     out = s.run("switch", cmd_switch, argv, tp, cwd=cwd, asked=asked, merge_like=True, optclass=optclass,
-                keyfn=lambda u: "store:" + ("refused-but-stripped:" if s.last_outcome != "ok" else "") + u["cls"].split("+")[0])
+                keyfn=lambda u: "store:" + (("refused-but-stripped:" + ("" if "ChangesAlreadyStored" in str(s.last_outcome) else str(s.last_outcome).replace("refused:", "after-") + ":"))
+                                             if s.last_outcome != "ok" else "") + u["cls"].split("+")[0])
     if out != "ok":
         return out
     if not stashed:
